@@ -63,6 +63,24 @@ Theorem C09_nested_lane : forall (X : Type) (d : X) (m : nat) (v : list (list X)
 Proof. exact P_nested_lane. Qed.
 Print Assumptions C09_nested_lane.
 
+(* the traits the generic dense-matrix code dispatches on (HasNaN, IsNumber), the lane count, Scalar and Rebind are forwarded through
+   LoopSIMD<t, S, A> for EVERY lane count S and EVERY alignment parameter A, at every nesting depth; u = any scalar type *)
+Theorem C09_traits_forward : forall (t u : c09_ty), (exists i h n, u = C09_TScalar i h n) ->
+  c09_ty_hasnan t = c09_ty_hasnan (c09_ty_scalar t) /\
+  c09_ty_isnumber t = c09_ty_isnumber (c09_ty_scalar t) /\
+  (forall S A, c09_ty_hasnan (C09_TSimd S A t) = c09_ty_hasnan t /\ c09_ty_isnumber (C09_TSimd S A t) = c09_ty_isnumber t /\
+               c09_ty_lanes (C09_TSimd S A t) = S * c09_ty_lanes t /\ c09_ty_scalar (C09_TSimd S A t) = c09_ty_scalar t /\
+               c09_ty_rebind u (C09_TSimd S A t) = C09_TSimd S A (c09_ty_rebind u t)) /\
+  c09_ty_lanes (c09_ty_rebind u t) = c09_ty_lanes t /\
+  c09_ty_scalar (c09_ty_rebind u t) = u /\
+  c09_ty_hasnan (c09_ty_rebind u t) = c09_ty_hasnan u /\
+  c09_ty_isnumber (c09_ty_rebind u t) = c09_ty_isnumber u /\
+  c09_ty_rebind (c09_ty_scalar t) t = t /\
+  c09_ty_rebind (c09_ty_scalar t) (c09_ty_rebind u t) = t /\
+  (exists i h n, c09_ty_scalar t = C09_TScalar i h n).
+Proof. exact P_traits_forward. Qed.
+Print Assumptions C09_traits_forward.
+
 (* the lane-count-indexed operators the LU model uses are the LoopSIMD operators above on W-lane operands *)
 Theorem C09_lu_model_uses_loopsimd_ops : forall (X Y Z : Type) (W : nat) (dx : X) (dy : Y) (f : X -> Y -> Z) (g : X -> Y)
                               (a : list X) (b : list Y) (m : list bool) (c : list X),
@@ -231,3 +249,10 @@ Example C09_example_infnorm :
   c09_v_infnorm c09w_T c09w_T (c09w_q 0%Z) c09w_abs c09w_add c09w_mul c09w_div c09w_lt (c09w_q 0%Z) (c09w_q 1%Z) 1 true c09w_N = [None] /\
   c09_s_infnorm c09w_T c09w_T c09w_abs c09w_add c09w_mul c09w_div c09w_lt (c09w_q 0%Z) (c09w_q 1%Z) true (c09_lane_mat c09w_T (c09w_q 0%Z) 0 c09w_N) = None.
 Proof. exact P_infnorm_witness_values. Qed.
+
+(* Rebind<double, LoopSIMD<LoopSIMD<int,2,16>,2,64>> = LoopSIMD<LoopSIMD<double,2,16>,2,64>: 4 lanes, HasNaN, alignments kept *)
+Example C09_example_traits :
+  let t := c09_ty_rebind (C09_TScalar 3 true true) (C09_TSimd 2 64 (C09_TSimd 2 16 (C09_TScalar 4 false true))) in
+  t = C09_TSimd 2 64 (C09_TSimd 2 16 (C09_TScalar 3 true true)) /\ c09_ty_lanes t = 4 /\ c09_ty_hasnan t = true /\
+  c09_ty_hasnan (c09_ty_mask t) = false.
+Proof. vm_compute. repeat split. Qed.
